@@ -132,6 +132,37 @@ func c04HistGen(t *rapid.T) interface{} {
 	for i := 0; i < n; i++ {
 		c.Ops = append(c.Ops, c04Op{Kind: lib.PickStr(t, kinds, "kind"), I: lib.IntN(t, 0, 40, "i"), Chunk: lib.PickInt(t, []int{1, 2, 3, 7, 64, 1019, 1024, 1025, 4096}, "chunk")})
 	}
+	switch lib.IntN(t, 0, 3, "special") {
+	case 0:
+		// inputs that leave non-ASCII bytes everywhere in any reused scratch memory, and inputs that end inside a
+		// multi-byte sequence right after a word: what the second kind yields must not depend on the first
+		a := assets()
+		d := a[lib.IntN(t, 0, len(a)-1, "truncDoc")].Content
+		if len(d) > 1500 {
+			d = d[:1500]
+		}
+		d = bytes.TrimRight(d, " \t\r\n.,;:")
+		base := len(c.Pool)
+		c.Pool = append(c.Pool,
+			recipe{Segs: []seg{{Kind: "raw", Raw: []byte(strings.Repeat("é", lib.IntN(t, 600, 1500, "eRun")))}}},
+			recipe{Segs: []seg{{Kind: "raw", Raw: append(append([]byte{}, d...), 0xc3)}}},
+			recipe{Segs: []seg{{Kind: "raw", Raw: []byte("x" + strings.Repeat("é", lib.IntN(t, 600, 1500, "eRun2")))}}},
+			recipe{Segs: []seg{{Kind: "raw", Raw: append(append([]byte{}, d[:len(d)-lib.IntN(t, 1, 7, "cut")]...), 0xe2, 0x80)}}})
+		for _, k := range []int{1, 0, 1, 2, 1, 3, 0, 3, 2, 3} {
+			c.Ops = append(c.Ops, c04Op{Kind: lib.PickStr(t, []string{"match", "match", "matchfrom", "normalize"}, "specialKind"), I: base + k, Chunk: 1024})
+		}
+		c.Ops = append(c.Ops, c04Op{Kind: "match", I: base + 1}, c04Op{Kind: "match", I: base + 3})
+	case 1:
+		// spelling variants: Normalize sees (and may record) the variant spelling, Match must still map it
+		a := assets()
+		d := string(a[lib.IntN(t, 0, len(a)-1, "spellDoc")].Content)
+		for _, p := range c06Spellings {
+			d = strings.Replace(d, p[1], p[0], -1)
+		}
+		base := len(c.Pool)
+		c.Pool = append(c.Pool, recipe{Segs: []seg{{Kind: "raw", Raw: []byte(d)}}})
+		c.Ops = append(c.Ops, c04Op{Kind: "normalize", I: base}, c04Op{Kind: "match", I: base}, c04Op{Kind: "normalize", I: base}, c04Op{Kind: "matchfrom", I: base, Chunk: 7})
+	}
 	return c
 }
 
@@ -191,7 +222,7 @@ func c04HistCheck(ci interface{}) lib.Outcome {
 				repeatedAfterDisturbance = true
 			}
 		case "normalize":
-			if op.I%3 == 0 {
+			if op.I%3 == 0 && op.I < 30 {
 				cl.Normalize(c04NewWordsText(op.I)) // adds new words to the dictionary
 			} else {
 				cl.Normalize(inputs[i])
